@@ -20,11 +20,11 @@ Lemma nonl_app a b : nonl (a ++ b) = nonl a && nonl b.
 Proof. unfold nonl. apply forallb_app. Qed.
 Lemma nonl_concat l : Forall (fun s => nonl s = true) l -> nonl (concat l) = true.
 Proof. induction 1 as [|x l Hx Hl IH]; [reflexivity|]. cbn [concat]. rewrite nonl_app, Hx, IH. reflexivity. Qed.
-Lemma nolb_nonl s : nolb s = true -> nonl s = true.
+Lemma nocrlf_nonl s : nocrlf s = true -> nonl s = true.
 Proof.
-  unfold nolb, nonl. rewrite !forallb_forall. intros H x Hx. specialize (H x Hx).
+  unfold nocrlf, nonl. rewrite !forallb_forall. intros H x Hx. specialize (H x Hx).
   destruct (N.eqb_spec x c_nl) as [->|]; [|reflexivity].
-  assert (E : is_linebreak c_nl = true) by (vm_compute; reflexivity). rewrite E in H. discriminate.
+  assert (E : is_crlf c_nl = true) by (vm_compute; reflexivity). rewrite E in H. discriminate.
 Qed.
 Lemma nonl_repeat s n : nonl s = true -> nonl (repeat_str s n) = true.
 Proof. intros H. induction n as [|n IH]; [reflexivity|]. cbn [repeat_str]. rewrite nonl_app, H, IH. reflexivity. Qed.
@@ -72,12 +72,12 @@ Fixpoint fields_nonl (n : anode) : bool :=
 
 Definition field_ok (t : vtok) : bool := match t with VField _ nm => nonl nm | VStr _ => true end.
 
-Lemma val_text_nonl v : toks_nolb v = true -> forallb field_ok v = true -> nonl (val_text v) = true.
+Lemma val_text_nonl v : toks_nocrlf v = true -> forallb field_ok v = true -> nonl (val_text v) = true.
 Proof.
   intros H1 H2. unfold val_text. apply nonl_concat. apply Forall_forall. intros s Hs.
   apply in_map_iff in Hs. destruct Hs as [t [<- Ht]].
-  unfold toks_nolb in H1. rewrite forallb_forall in H1, H2. specialize (H1 t Ht). specialize (H2 t Ht).
-  destruct t as [s|i nm]; [apply nolb_nonl, H1|exact H2].
+  unfold toks_nocrlf in H1. rewrite forallb_forall in H1, H2. specialize (H1 t Ht). specialize (H2 t Ht).
+  destruct t as [s|i nm]; [apply nocrlf_nonl, H1|exact H2].
 Qed.
 
 Section Lines.
@@ -102,7 +102,7 @@ Section Lines.
     intros Hw Hp Hf. unfold primary_text. destruct (aa_value a) as [v|] eqn:Ev; [|reflexivity].
     unfold attr_wf in Hw. rewrite Ev in Hw.
     destruct (name_is a s_class).
-    - cbn [nonl forallb]. fold (nonl (val_text (map class_tok v))). rewrite val_text_nonl; [reflexivity|apply toks_nolb_class|].
+    - cbn [nonl forallb]. fold (nonl (val_text (map class_tok v))). rewrite val_text_nonl; [reflexivity|apply toks_nocrlf_class|].
       clear - Hf. induction v as [|t v IH]; [reflexivity|]. cbn [forallb] in Hf. apply andb_true_iff in Hf.
       destruct Hf as [H1 H2]. cbn [map forallb]. rewrite (IH H2), andb_true_r. destruct t; [reflexivity|exact H1].
     - apply andb_true_iff in Hw. destruct Hw as [_ Hw].
@@ -116,12 +116,12 @@ Section Lines.
     unfold attr_wf in Hw. unfold is_primary in Hp. apply orb_false_iff in Hp. destruct Hp as [Hp1 Hp2].
     unfold is_primary in Hw. rewrite Hp1, Hp2 in Hw. cbn [orb] in Hw. apply andb_true_iff in Hw. destruct Hw as [Hn Hv].
     unfold attr_text. rewrite nonl_app. apply andb_true_iff. split.
-    - apply nolb_nonl. unfold attr_name. rewrite nolb_str_case. exact Hn.
+    - apply nocrlf_nonl. unfold attr_name. rewrite nocrlf_str_case. exact Hn.
     - destruct (is_boolean_attribute c a && negb (truthy_l (aa_value a))).
       + destruct (negb (oc_compact_boolean c) && negb (is_nil (io_boolean_value o))); [|reflexivity].
-        cbn [nonl forallb]. fold (nonl (io_boolean_value o)). rewrite (nolb_nonl _ Hb). reflexivity.
+        cbn [nonl forallb]. fold (nonl (io_boolean_value o)). rewrite (nocrlf_nonl _ Hb). reflexivity.
       + cbn [nonl forallb]. fold (nonl (attr_quote c a true ++ val_text (value_or_caret (aa_value a)) ++ attr_quote c a false)).
-        rewrite !nonl_app, !(nolb_nonl _ (nolb_attr_quote c a _)). cbn [andb]. rewrite andb_true_r.
+        rewrite !nonl_app, !(nocrlf_nonl _ (nocrlf_attr_quote c a _)). cbn [andb]. rewrite andb_true_r.
         unfold value_or_caret. destruct (aa_value a) as [[|t v]|]; try reflexivity.
         apply val_text_nonl; assumption.
   Qed.
@@ -133,7 +133,7 @@ Section Lines.
     rewrite nonl_app, Hs. rewrite Forall_forall in H2. apply H2, Hy.
   Qed.
 
-  Lemma head_nonl n : nolb (match an_name n with Some x => x | None => [] end) = true ->
+  Lemma head_nonl n : nocrlf (match an_name n with Some x => x | None => [] end) = true ->
     forallb attr_wf (attrs_of n) = true ->
     forallb (fun a => forallb field_ok (match aa_value a with Some x => x | None => [] end)) (attrs_of n) = true ->
     nonl (head c o n) = true.
@@ -143,13 +143,13 @@ Section Lines.
     unfold head. rewrite !nonl_app. apply andb_true_iff. split; [|apply andb_true_iff; split].
     - destruct (an_name n) as [[|c0 nm]|]; try reflexivity.
       destruct (str_eqb (c0 :: nm) s_div && has_class_or_id n); [reflexivity|].
-      rewrite !nonl_app, (nolb_nonl _ Hbn), (nolb_nonl _ Han), (nolb_nonl _ Hn). reflexivity.
+      rewrite !nonl_app, (nocrlf_nonl _ Hbn), (nocrlf_nonl _ Han), (nocrlf_nonl _ Hn). reflexivity.
     - apply nonl_concat. apply Forall_forall. intros s Hs. apply in_map_iff in Hs. destruct Hs as [a [<- Ha]].
       unfold primary_of in Ha. apply filter_In in Ha. destruct Ha as [Ha Hp].
       apply primary_text_nonl; [apply Hw, Ha|exact Hp|apply Hf, Ha].
     - unfold attr_list. destruct (secondary_of n) as [|a0 l] eqn:E; [reflexivity|]. rewrite <- E.
-      rewrite !nonl_app, (nolb_nonl _ Hba), (nolb_nonl _ Haa). cbn [andb]. rewrite andb_true_r.
-      apply join_nonl; [apply nolb_nonl, Hg|]. apply Forall_forall. intros s Hs. apply in_map_iff in Hs.
+      rewrite !nonl_app, (nocrlf_nonl _ Hba), (nocrlf_nonl _ Haa). cbn [andb]. rewrite andb_true_r.
+      apply join_nonl; [apply nocrlf_nonl, Hg|]. apply Forall_forall. intros s Hs. apply in_map_iff in Hs.
       destruct Hs as [a [<- Ha]]. unfold secondary_of in Ha. apply filter_In in Ha. destruct Ha as [Ha _].
       apply filter_In in Ha. destruct Ha as [Ha Hp]. apply negb_true_iff in Hp.
       apply attr_text_nonl; [apply Hw, Ha|exact Hp|apply Hf, Ha].
@@ -175,7 +175,7 @@ Section Lines.
     - split; assumption.
     - cbn [forallb] in Hv. apply andb_true_iff in Hv. destruct Hv as [Ht Hv].
       destruct t as [s|i nm]; cbn [sbl_step].
-      + destruct (splitlines s) as [|l0 ls].
+      + destruct (split_crlf s) as [|l0 ls].
         * apply IH; [assumption|assumption|]. rewrite forallb_app, Hl. reflexivity.
         * pose proof (sbl_inner_fields ls res (ln ++ [VStr l0]) Hr) as G.
           destruct (fold_left _ ls (res, ln ++ [VStr l0])) as [res' ln'].
@@ -201,7 +201,7 @@ Section Lines.
     nonl (inline_value o n) = true.
   Proof.
     intros Hf. destruct (Ho_parts o Ho) as [_ [_ [_ [_ [_ [_ Hsc]]]]]].
-    unfold inline_value. destruct (is_self_closed n); [apply nolb_nonl, Hsc|].
+    unfold inline_value. destruct (is_self_closed n); [apply nocrlf_nonl, Hsc|].
     destruct (no_value_part n); [reflexivity|].
     pose proof (split_by_lines_pieces (value_or_caret (an_value n))) as Hp.
     pose proof (split_by_lines_fields _ (value_fields_ok n Hf)) as Hq.
